@@ -788,6 +788,9 @@ def r4(fx, chk):
                             f["mask7f"] = True
                         if op_ == "BitAnd" and 0x80 in (a_, b2_):
                             f["test80"] = True
+                        # the continuation bit tested as a comparison of the byte with 0x80 / 0x7F
+                        if op_ in ("Lt", "Ge") and 0x80 in (a_, b2_) or op_ in ("Gt", "Le") and 0x7F in (a_, b2_):
+                            f["test80"] = True
             reads = any(t_["callee"].get("trait") in ("byteorder::io::ReadBytesExt", "std::io::Read") for _b, t_ in LP.calls_in(body, L.blocks))
             if not reads:
                 continue          # not the loop that reads the length bytes
